@@ -804,7 +804,9 @@ static std::vector<Job> make_jobs(bool thorough) {
     // disjoint shape sets (only the empty stash is common to the three systems)
     J.push_back(stash_job({0, 1, 2}, thorough ? 9 : 7, thorough ? 20 : 5));
     J.push_back(stash_job({3, 5}, thorough ? 10 : 8, thorough ? 20 : 3));
-    J.push_back(stash_job({6, 4}, thorough ? 9 : 7, thorough ? 5 : 2, false));      // with a stand-alone TagList item (not an OSMEntity); plain build only
+    // A stand-alone TagList (shape 4, not an OSMEntity) is NOT stashed: garbage_collect() is Buffer::purge_removed(), which is defined
+    // over OSM entities only, and the property speaks about OSM items - what happens to a bare sub-item list is left open.
+    J.push_back(stash_job({6}, thorough ? 9 : 7, thorough ? 5 : 2, false));
     const size_t np = long_patterns().size();
     for (size_t p = 0; p < np; ++p) {
         const bool big = std::string(long_patterns()[p].name) == "five-million-removed";
